@@ -14,30 +14,27 @@ All theorems quantify over EVERY non-empty, non-negative, descending spectrum `s
 namespace Ptn.C10
 
 /-- **Prefix clause.**  The result is `(c • s[:k], s[k:])` for one `k` with `1 ≤ k ≤ |s|` and
-    `k ≤ max_bond_dim`; `c = 1` unless renormalising, in which case `c = Σs / Σs[:k]`.
-    The only exception is the third alternative: renormalising an all-zero spectrum yields
-    not-a-number entries (`0·0/0`), see `renorm_zero_nan` (recorded as observation F-C10a). -/
+    `k ≤ max_bond_dim`; `c = 1` unless renormalising a non-zero spectrum, in which case
+    `c = Σs / Σs[:k]` (an all-zero spectrum is returned unchanged: repair F-C10a). -/
 theorem trunc_is_prefix (s : List Rat) (p : Params) (hs : s ≠ []) (hnn : NonNeg s) (hd : Desc s)
     (hp : p.Valid) :
     ∃ k, 1 ≤ k ∧ k ≤ s.length ∧ (∀ d, p.maxBond = some d → k ≤ d) ∧
-      ((p.renorm = false ∧ truncate s p = some (.vals (s.take k), s.drop k)) ∨
+      (((p.renorm = false ∨ s.head hs = 0) ∧ truncate s p = some (s.take k, s.drop k)) ∨
        (p.renorm = true ∧ 0 < s.head hs ∧
-          truncate s p = some (.vals ((s.take k).map (renormFactor s k * ·)), s.drop k)) ∨
-       (p.renorm = true ∧ s.head hs = 0 ∧ truncate s p = some (.nans k, s.drop k))) := by
+          truncate s p = some ((s.take k).map (renormFactor s k * ·), s.drop k))) := by
   obtain ⟨h1, h2, h3⟩ := keptLen_bounds s p hs hp
   refine ⟨keptLen s p hs, h1, h2, h3, ?_⟩
   rw [truncate_eq s p hs hnn hd hp]
   cases hr : p.renorm with
   | false => left; simp [keptOf]
   | true =>
-    right
     have h0 : 0 ≤ s.head hs := hnn _ (List.head_mem hs)
     by_cases hz : s.head hs = 0
-    · right
-      refine ⟨rfl, hz, ?_⟩
-      simp only [keptOf, if_true]
-      rw [renormalise_zero s _ h2 (sum_take_zero s hs hnn hd hz _)]
     · left
+      refine ⟨Or.inr hz, ?_⟩
+      simp only [keptOf, if_true]
+      rw [renormalise_zero s _ (sum_take_zero s hs hnn hd hz _)]
+    · right
       have hpos : 0 < s.head hs := Rat.lt_of_le_of_ne h0 (Ne.symm hz)
       have hsum : 0 < (s.take (keptLen s p hs)).sum :=
         rat_lt_of_lt_of_le hpos (head_le_sum_take s hs hnn _ h1)
@@ -93,12 +90,12 @@ theorem sum_rule (s : List Rat) (p : Params) (hs : s ≠ []) (hnn : NonNeg s) (h
     · rw [← hk]; exact keptOf_length s _ _ h2
 
 /-- **Keep one.**  If the rule selects nothing, exactly the largest value is kept (rescaled to the
-    total sum when renormalising a non-zero spectrum) and all others are discarded. -/
+    total sum when renormalising) and all others are discarded. -/
 theorem keep_one (s : List Rat) (p : Params) (hs : s ≠ []) (hnn : NonNeg s) (hd : Desc s)
     (hp : p.Valid) (hnone : selected s p = []) :
     ∃ kept, truncate s p = some (kept, s.tail) ∧
-      (p.renorm = false → kept = .vals [s.head hs]) ∧
-      (p.renorm = true → 0 < s.head hs → kept = .vals [s.sum]) := by
+      (p.renorm = false → kept = [s.head hs]) ∧
+      (p.renorm = true → kept = [s.sum]) := by
   have hsel : selLen s p hs = 0 := by
     have h := selected_eq_take s p hs hnn hd
     rw [hnone] at h
@@ -120,27 +117,59 @@ theorem keep_one (s : List Rat) (p : Params) (hs : s ≠ []) (hnn : NonNeg s) (h
   refine ⟨keptOf s p.renorm 1, ?_, ?_, ?_⟩
   · rw [truncate_eq s p hs hnn hd hp, hk]; simp
   · intro hr; simp [keptOf, hr, htake]
-  · intro hr hpos
-    have hsum : 0 < (s.take 1).sum := by simpa [htake] using hpos
+  · intro hr
+    have h0 : 0 ≤ s.head hs := hnn _ (List.head_mem hs)
     simp only [keptOf, hr, if_true]
-    rw [renormalise_pos s 1 hsum, htake]
-    have hne : s.head hs ≠ 0 := by grind
-    simp [renormFactor, htake, Rat.div_mul_cancel hne]
+    by_cases hz : s.head hs = 0
+    · rw [renormalise_zero s _ (sum_take_zero s hs hnn hd hz 1), htake, hz,
+        sum_zero_of_head_zero s hs hnn hd hz]
+    · have hpos : 0 < s.head hs := Rat.lt_of_le_of_ne h0 (Ne.symm hz)
+      have hsum : 0 < (s.take 1).sum := by simpa [htake] using hpos
+      rw [renormalise_pos s 1 hsum, htake]
+      simp [renormFactor, htake, Rat.div_mul_cancel hz]
 
-/-- **Renormalisation.**  With `renorm` and a non-zero spectrum the kept prefix is multiplied as a
-    whole by `c = Σs / Σs[:k] ≥ 1`, and afterwards sums to `Σs` (the ℓ¹ norm is restored — the sum,
-    not the Euclidean norm the docstring suggests). -/
+/-- **Renormalisation.**  With `renorm` the kept prefix is multiplied as a whole by one factor
+    `c ≥ 1` and afterwards sums to `Σs` (the ℓ¹ norm is restored — the sum, not the Euclidean norm
+    the docstring suggests).  For a non-zero spectrum `c = Σs / Σs[:k]`; an all-zero spectrum is
+    returned unchanged (`c = 1`).  No exception: this holds for every spectrum. -/
 theorem renorm_scale (s : List Rat) (p : Params) (hs : s ≠ []) (hnn : NonNeg s) (hd : Desc s)
-    (hp : p.Valid) (hr : p.renorm = true) (hpos : 0 < s.head hs) :
-    ∃ k kept, truncate s p = some (.vals kept, s.drop k) ∧
-      kept = (s.take k).map (renormFactor s k * ·) ∧ kept.sum = s.sum ∧ 1 ≤ renormFactor s k := by
+    (hp : p.Valid) (hr : p.renorm = true) :
+    ∃ k c kept, truncate s p = some (kept, s.drop k) ∧
+      kept = (s.take k).map (c * ·) ∧ kept.sum = s.sum ∧ 1 ≤ c ∧
+      (0 < s.head hs → c = renormFactor s k) ∧ (s.head hs = 0 → c = 1) := by
   obtain ⟨h1, _, _⟩ := keptLen_bounds s p hs hp
-  have hsum : 0 < (s.take (keptLen s p hs)).sum :=
-    rat_lt_of_lt_of_le hpos (head_le_sum_take s hs hnn _ h1)
-  refine ⟨keptLen s p hs, _, ?_, rfl, renorm_sum s _ hsum, renormFactor_ge_one s hnn _ hsum⟩
+  have h0 : 0 ≤ s.head hs := hnn _ (List.head_mem hs)
   rw [truncate_eq s p hs hnn hd hp]
   simp only [keptOf, hr, if_true]
-  rw [renormalise_pos s _ hsum]
+  by_cases hz : s.head hs = 0
+  · have hzero := sum_take_zero s hs hnn hd hz (keptLen s p hs)
+    refine ⟨keptLen s p hs, 1, _, rfl, ?_, ?_, Rat.le_refl, ?_, fun _ => rfl⟩
+    · rw [renormalise_zero s _ hzero]; simp [Rat.one_mul]
+    · rw [renormalise_zero s _ hzero, hzero, sum_zero_of_head_zero s hs hnn hd hz]
+    · intro hpos; rw [hz] at hpos; exact absurd hpos Rat.lt_irrefl
+  · have hpos : 0 < s.head hs := Rat.lt_of_le_of_ne h0 (Ne.symm hz)
+    have hsum : 0 < (s.take (keptLen s p hs)).sum :=
+      rat_lt_of_lt_of_le hpos (head_le_sum_take s hs hnn _ h1)
+    refine ⟨keptLen s p hs, renormFactor s (keptLen s p hs), _, rfl, renormalise_pos s _ hsum, ?_,
+      renormFactor_ge_one s hnn _ hsum, fun _ => rfl, fun h => absurd h hz⟩
+    rw [renormalise_pos s _ hsum]; exact renorm_sum s _ hsum
+
+/-- **Zero spectrum (repair F-C10a).**  Renormalising a kept vector whose sum is zero returns it
+    unchanged; hence for an all-zero spectrum the result consists of zeros only, whatever the flags. -/
+theorem renorm_zero_unchanged (s : List Rat) (p : Params) (hs : s ≠ []) (hnn : NonNeg s)
+    (hd : Desc s) (hp : p.Valid) (hz : s.head hs = 0) :
+    (∀ newS : List Rat, newS.sum = 0 → renormalise s newS = newS) ∧
+    ∃ k, 1 ≤ k ∧ truncate s p = some (s.take k, s.drop k) ∧ ∀ x ∈ s.take k, x = 0 := by
+  obtain ⟨h1, _, _⟩ := keptLen_bounds s p hs hp
+  refine ⟨fun newS h => renormalise_zero s newS h, keptLen s p hs, h1, ?_, ?_⟩
+  · rw [truncate_eq s p hs hnn hd hp]
+    cases hr : p.renorm with
+    | false => simp [keptOf]
+    | true =>
+      simp only [keptOf, if_true]
+      rw [renormalise_zero s _ (sum_take_zero s hs hnn hd hz _)]
+  · intro x hx
+    exact all_zero_of_head_zero s hs hnn hd hz x (List.mem_of_mem_take hx)
 
 /-- Validation accepts exactly: `max_bond_dim` a positive integer or `+inf`, and each tolerance
     non-negative, `-inf` or `+inf`. -/
@@ -200,52 +229,53 @@ example : Desc [4, 2, 2, 1, 0, 0] ∧ NonNeg [4, 2, 2, 1, 0, 0] ∧
   refine ⟨by decide +kernel, by decide +kernel, by decide +kernel⟩
 -- tie at the threshold: rel·s₀ = 2, values equal to 2 are NOT kept (strictly above)
 example : truncate [4, 2, 2, 1] (exP none (.fin (1/2)) .ninf false false true)
-    = some (.vals [4], [2, 2, 1]) := by decide +kernel
+    = some ([4], [2, 2, 1]) := by decide +kernel
 -- just below the tie: kept
 example : truncate [4, 2, 2, 1] (exP none (.fin (1/4)) .ninf false false true)
-    = some (.vals [4, 2, 2], [1]) := by decide +kernel
+    = some ([4, 2, 2], [1]) := by decide +kernel
 -- max(rel·s₀, tot): the larger threshold wins
 example : truncate [4, 2, 2, 1] (exP none (.fin (1/4)) (.fin 3) false false true)
-    = some (.vals [4], [2, 2, 1]) := by decide +kernel
+    = some ([4], [2, 2, 1]) := by decide +kernel
 -- both tolerances -inf, D = ∞: nothing is discarded, zeros included
 example : truncate [4, 2, 0, 0] (exP none .ninf .ninf false false true)
-    = some (.vals [4, 2, 0, 0], []) := by decide +kernel
+    = some ([4, 2, 0, 0], []) := by decide +kernel
 -- D caps the prefix
 example : truncate [4, 2, 2, 1] (exP (some 2) .ninf .ninf false false true)
-    = some (.vals [4, 2], [2, 1]) := by decide +kernel
+    = some ([4, 2], [2, 1]) := by decide +kernel
 -- tolerance 0: zeros are dropped (strict comparison), D = ∞
 example : truncate [4, 2, 0, 0] (exP none (.fin 0) (.fin 0) false false true)
-    = some (.vals [4, 2], [0, 0]) := by decide +kernel
+    = some ([4, 2], [0, 0]) := by decide +kernel
 -- nothing survives: keep the largest
 example : truncate [4, 2, 1] (exP (some 5) (.fin 1) (.fin 0) false false true)
-    = some (.vals [4], [2, 1]) := by decide +kernel
+    = some ([4], [2, 1]) := by decide +kernel
 example : truncate [4, 2, 1] (exP (some 5) .pinf (.fin 0) false false true)
-    = some (.vals [4], [2, 1]) := by decide +kernel
+    = some ([4], [2, 1]) := by decide +kernel
 -- single value; all-zero spectrum with rel_tol = -inf (IEEE nan cutoff): one zero is kept
-example : truncate [3] (exP (some 1) (.fin 0) (.fin 0) false false true) = some (.vals [3], []) := by
+example : truncate [3] (exP (some 1) (.fin 0) (.fin 0) false false true) = some ([3], []) := by
   decide +kernel
-example : truncate [0, 0] (exP none .ninf .ninf false false true) = some (.vals [0], [0]) := by
+example : truncate [0, 0] (exP none .ninf .ninf false false true) = some ([0], [0]) := by
   decide +kernel
 -- sum mode, absolute: tail {3} has weight 9 = 3², fits (not strictly above) -> discarded
-example : truncate [4, 3] (exP none (.fin 0) (.fin 3) false true false) = some (.vals [4], [3]) := by
+example : truncate [4, 3] (exP none (.fin 0) (.fin 3) false true false) = some ([4], [3]) := by
   decide +kernel
 example : truncate [4, 3] (exP none (.fin 0) (.fin (299/100)) false true false)
-    = some (.vals [4, 3], []) := by decide +kernel
+    = some ([4, 3], []) := by decide +kernel
 -- sum mode, relative: tails of [1,1,1,1] weigh 1/4, 1/2, ...; tol² = 1/4 ties with the first
 example : truncate [1, 1, 1, 1] (exP none (.fin 0) (.fin (1/2)) false true true)
-    = some (.vals [1, 1, 1], [1]) := by decide +kernel
+    = some ([1, 1, 1], [1]) := by decide +kernel
 -- sum mode with total_tol = -inf: (-inf)² = +inf, every tail fits, the largest value is kept
-example : truncate [4, 3, 1] (exP none (.fin 0) .ninf false true true) = some (.vals [4], [3, 1]) := by
+example : truncate [4, 3, 1] (exP none (.fin 0) .ninf false true true) = some ([4], [3, 1]) := by
   decide +kernel
 -- sum mode, max_bond_dim hit: the cap applies to the ORIGINAL vector
 example : truncate [4, 3, 2, 1] (exP (some 2) (.fin 0) (.fin 0) false true false)
-    = some (.vals [4, 3], [2, 1]) := by decide +kernel
+    = some ([4, 3], [2, 1]) := by decide +kernel
 -- renormalisation: [4,2] scaled by 7/6 sums to 7 again
 example : truncate [4, 2, 1] (exP (some 2) .ninf .ninf true false true)
-    = some (.vals [14/3, 7/3], [1]) := by decide +kernel
-/-- Witness for observation F-C10a: renormalising an all-zero spectrum returns NaN. -/
-theorem renorm_zero_nan :
-    truncate [0, 0] (exP none (.fin 0) (.fin 0) true false true) = some (.nans 1, [0]) := by
+    = some ([14/3, 7/3], [1]) := by decide +kernel
+-- renormalising an all-zero spectrum leaves it unchanged (was NaN before repair F-C10a)
+example : truncate [0, 0] (exP none (.fin 0) (.fin 0) true false true) = some ([0], [0]) := by
+  decide +kernel
+example : truncate [0, 0, 0] (exP none .ninf .ninf true true true) = some ([0], [0, 0]) := by
   decide +kernel
 -- the empty vector is rejected
 example : truncate [] (exP none (.fin 0) (.fin 0) false false true) = none := by decide +kernel
